@@ -8,7 +8,7 @@ MOD = 'github.com/tonkeeper/tongo'
 STOP = ["fmt", "crypto", "reflect", "math/big", "hash", "sync", "time", "os", "runtime", "internal", "unicode/utf16",
         "syscall", "io/fs", "math/rand", "encoding/json", "log", "net", "context", "sort", "math/bits", "unsafe",
         "golang.org/x/crypto", "github.com/oasisprotocol", "github.com/alecthomas", "text/template", "bufio", "math"]
-DYN = ["MarshalTLB", "UnmarshalTLB", "MarshalTL", "UnmarshalTL", "FixedSize", "Compare", "Equal", "Error"]
+DYN = ["MarshalTLB", "UnmarshalTLB", "MarshalTL", "UnmarshalTL", "FixedSize", "Compare", "Equal", "Error", "EncodeTag", "ValidateTag"]
 
 GOENV = dict(os.environ, GOFLAGS='-mod=mod', GOPROXY='off', GOSUMDB='off', GOTOOLCHAIN='local')
 
